@@ -536,13 +536,16 @@ func runFail(x *core.Ctx, r *core.Rng) {
 	defer os.RemoveAll(scratch)
 	n := r.Range(1500, 3500)
 	k := r.Range(1, 1200)
-	shapeKind := r.Pick([]string{"chain", "fork", "union", "join"})
+	shapeKind := r.Pick([]string{"chain", "fork", "union", "join", "stats", "stats"})
 	var script string
 	switch shapeKind {
 	case "chain":
 		script = "stream|from().measurement('m')|log().prefix('in')|eval(lambda: \"id\" + 1).as('x').keep()|log().prefix('bomb')|window().periodCount(10).everyCount(10)|count('id')|log().prefix('out')"
 	case "fork":
 		script = "var s = stream|from().measurement('m')|log().prefix('in')\ns|log().prefix('bomb')|log().prefix('out')\ns|where(lambda: \"id\" > 10)|log().prefix('other')"
+	case "stats":
+		// a stats node only ends when its stop function is called
+		script = "var s = stream|from().measurement('m')|log().prefix('in')\nvar a = s|log().prefix('bomb')\na|log().prefix('out')\na|stats(10ms)|log().prefix('st')\ns|stats(10ms)|log().prefix('st2')"
 	case "union":
 		script = "var s = stream|from().measurement('m')|log().prefix('in')\nvar a = s|log().prefix('bomb')\nvar b = s|where(lambda: \"id\" > 10)\na|union(b)|log().prefix('out')"
 	default:
@@ -605,12 +608,23 @@ func runFail(x *core.Ctx, r *core.Rng) {
 	if !env.Rec.Sink("healthy").WaitLen(n, 20*time.Second) {
 		fail("accepted-point-lost", "a healthy task lost points while another task's node failed", "healthy task saw %d of %d", env.Rec.Sink("healthy").Len(), n)
 	}
-	if msg := waitET(et, 20*time.Second); msg != "" {
-		fail("stop-hangs", "a task whose node failed never terminates ("+shapeKind+")", "%s", msg)
-		return
+	waitFor := 20 * time.Second
+	if shapeKind == "stats" {
+		waitFor = 2 * time.Second
 	}
-	if err := et.Wait(); err == nil {
-		fail("node-error-lost", "a task whose node panicked ended without an error", "shape %s", shapeKind)
+	terminated := true
+	if msg := waitET(et, waitFor); msg != "" {
+		terminated = false
+		fail("stop-hangs", "a task whose node failed never terminates ("+shapeKind+")", "%s", msg)
+		if shapeKind != "stats" {
+			return
+		}
+		// stats nodes (known finding): go on, StopTask must still end everything
+	}
+	if terminated {
+		if err := et.Wait(); err == nil {
+			fail("node-error-lost", "a task whose node panicked ended without an error", "shape %s", shapeKind)
+		}
 	}
 	stopDone := make(chan error, 1)
 	go func() { stopDone <- env.TM.StopTask("T") }()
